@@ -11,15 +11,19 @@ from nsa.model import SourceModel, AnalysisError  # noqa: E402
 from nsa.report import Ctx  # noqa: E402
 
 
-def run_property(prop, tier, repo=None, overrides=None, quiet=False, write=True):
+def run_property(prop, tier, repo=None, overrides=None, quiet=False, write=True, reuse=None):
     """Returns (exit code, ctx)."""
     ctx = Ctx(prop, tier, quiet=quiet)
     try:
         mod = importlib.import_module(f"nsa.rules.{prop.lower()}")
-        ctx.model = SourceModel(repo, overrides)
+        ctx.model = SourceModel(repo, overrides, reuse)
         mod.run(ctx)
-        if tier == "thorough" and hasattr(mod, "thorough"):
-            mod.thorough(ctx)
+        if tier == "thorough":
+            if hasattr(mod, "thorough"):
+                mod.thorough(ctx)
+            if not overrides:
+                from nsa.thorough import run_selftests
+                run_selftests(ctx, repo)
     except AnalysisError as e:
         ctx.error(str(e))
     except ModuleNotFoundError as e:
